@@ -74,6 +74,52 @@ bspline_deriv(const double *knots, double x, int i, int n, unsigned order)
 }
 
 /*
+ * The same two functions with basis splines that are continuous from the
+ * left: the order-0 splines are one on (knots[i], knots[i+1]]. Evaluation
+ * uses these from the upper end of the fully supported region upwards,
+ * so that a point on a knot there sees the polynomial piece to its left.
+ */
+
+static double
+bspline_left(const double *knots, double x, int i, int n)
+{
+	double result;
+
+	if (n == 0) {
+		if (x > knots[i] && x <= knots[i+1])
+			return 1.0;
+		else
+			return 0.0;
+	}
+
+	result = (x - knots[i])*bspline_left(knots, x, i, n-1) /
+	    (knots[i+n] - knots[i]);
+	result += (knots[i+n+1] - x)*bspline_left(knots, x, i+1, n-1) /
+	    (knots[i+n+1] - knots[i+1]);
+
+	return result;
+}
+
+double
+bspline_deriv_left(const double *knots, double x, int i, int n, unsigned order)
+{
+	double result;
+
+	if (n == 0)
+		return 0.0;
+
+	if (order <= 1) {
+		result = n * bspline_left(knots, x, i, n-1) / (knots[i+n] - knots[i]);
+		result -= n * bspline_left(knots, x, i+1, n-1) / (knots[i+n+1] - knots[i+1]);
+	} else {
+		result = n * bspline_deriv_left(knots, x, i, n-1, order-1) / (knots[i+n] - knots[i]);
+		result -= n * bspline_deriv_left(knots, x, i+1, n-1, order-1) / (knots[i+n+1] - knots[i+1]);
+	}
+	
+	return result;
+}
+
+/*
  * Evaluates the results of a full spline basis given a set of knots,
  * a position, an order, and a central spline for the position (or -1).
  * The central spline should be the index of the 0th order basis spline
